@@ -109,6 +109,10 @@ func (o *ordersim) norm(projDir string) string {
 
 // runDriver executes a job list in ONE fresh process under a watchdog.
 func (o *ordersim) runDriver(jobs []Job) []Result {
+	return o.runDriverEnv(jobs, nil)
+}
+
+func (o *ordersim) runDriverEnv(jobs []Job, extraEnv []string) []Result {
 	id := o.seq.Add(1)
 	jf := filepath.Join(o.s.Dir, "jobs", fmt.Sprintf("j%d.json", id))
 	rf := filepath.Join(o.s.Dir, "jobs", fmt.Sprintf("r%d.json", id))
@@ -171,6 +175,10 @@ const straddleA = "2031-05-17T23:59:59Z"
 const straddleB = "2031-05-18T00:00:01Z"
 
 func (o *ordersim) execRun(p *projgen.Project, r OrderRun) Artifacts {
+	return o.execRunEnv(p, r, nil)
+}
+
+func (o *ordersim) execRunEnv(p *projgen.Project, r OrderRun, extraEnv []string) Artifacts {
 	dir := o.materialise(p)
 	id := o.seq.Add(1)
 	outDir := filepath.Join(o.s.Dir, "out", fmt.Sprintf("%d", id))
@@ -196,7 +204,7 @@ func (o *ordersim) execRun(p *projgen.Project, r OrderRun) Artifacts {
 	}
 	cf := mk(p, dir, r.Engine, r.SkipDate, "main")
 	jobs = append(jobs, Job{Kind: "generate", Dir: dir, Config: cf, Command: r.Command, Order: r.Order, Now: r.Now, Now2: r.Now2, Norm: o.norm(dir)})
-	res := o.runDriver(jobs)
+	res := o.runDriverEnv(jobs, extraEnv)
 	for _, c := range cfgs {
 		os.Remove(c)
 	}
